@@ -87,10 +87,36 @@ func c01Build(r *rand.Rand, next http.Handler, weights []int, histLen int) (*rou
 	return c01BuildOpts(r, next, weights, histLen)
 }
 
+// c01Admin is the administrative surface pool changes go through: the balancer itself, or a Rebalancer wrapped around it
+// (no traffic passes through that rebalancer, so it never adjusts a weight on its own).
+type c01Admin interface {
+	UpsertServer(u *url.URL, options ...roundrobin.ServerOption) error
+	RemoveServer(u *url.URL) error
+}
+
 func c01BuildOpts(r *rand.Rand, next http.Handler, weights []int, histLen int, opts ...roundrobin.LBOption) (*roundrobin.RoundRobin, []*url.URL, []string, error) {
-	rr, err := roundrobin.New(next, opts...)
+	rrInner, err := roundrobin.New(next, opts...)
 	if err != nil {
 		return nil, nil, nil, err
+	}
+	type selector interface {
+		NextServer() (*url.URL, error)
+	}
+	var rr interface {
+		c01Admin
+		selector
+	} = rrInner
+	viaRB := false
+	if histLen > 0 && r.IntN(4) == 0 {
+		rb, err := roundrobin.NewRebalancer(rrInner)
+		if err != nil {
+			return nil, nil, nil, err
+		}
+		viaRB = true
+		rr = struct {
+			c01Admin
+			selector
+		}{rb, rrInner}
 	}
 	urls := make([]*url.URL, len(weights))
 	for i := range urls {
@@ -155,8 +181,21 @@ func c01BuildOpts(r *rand.Rand, next http.Handler, weights []int, histLen int, o
 		_ = rr.UpsertServer(urls[i], roundrobin.Weight(1+r.IntN(9)), roundrobin.Weight(-1))
 		hist = append(hist, sfmt("final-up%d-rejected", i))
 	}
-	return rr, urls, hist, nil
+	if viaRB {
+		hist = append(hist, "admin-via-rebalancer")
+	}
+	// the weights in force are the ones the last successful call per server asked for
+	for i, u := range urls {
+		if w, ok := rrInner.ServerWeight(u); !ok || w != weights[i] {
+			return nil, nil, nil, c01ConfigErr{sfmt("after history %v: ServerWeight(%v) = %d,%v; the last successful UpsertServer for it asked for weight %d", hist, u, w, ok, weights[i])}
+		}
+	}
+	return rrInner, urls, hist, nil
 }
+
+type c01ConfigErr struct{ msg string }
+
+func (e c01ConfigErr) Error() string { return e.msg }
 
 type c01Ref struct {
 	keys   []string
@@ -254,7 +293,11 @@ func c01Seq(c *Ctx) {
 		}
 		rr, urls, hist, err := c01BuildOpts(r, h, weights, r.IntN(12), lbOpts...)
 		if err != nil {
-			c.Violation("build", "building pool failed: "+err.Error(), map[string]any{"weights": weights})
+			key := "build"
+			if _, ok := err.(c01ConfigErr); ok {
+				key = "config/weight"
+			}
+			c.Violation(key, "building pool failed: "+err.Error(), map[string]any{"weights": weights})
 			return
 		}
 		ref, ws := c01Reference(rr, urls)
